@@ -25,7 +25,11 @@ def seeds():
             ("suite %d/%d pass; demo fails with, passes without" % (cb["existing_suite_with_change"]["passed"], cb["existing_suite_with_change"]["passed"] + cb["existing_suite_with_change"]["failed"])) if cb.get("ok") else "NOT CONFIRMED",
             ", ".join(sorted({x.split("|")[0] for x in v})) or "—", (" (also " + ", ".join(others) + ")") if others else "",
             "missed at first → rule added" if "MISSED" in m.get("history", "") else "reported at first run"))
-    return "\n".join(rows)
+    n = len(rows) - 2
+    missed = sum(1 for r in rows[2:] if "missed at first" in r)
+    head = ("%d seeded changes confirmed; %d were reported by the claiming property's check on its first run, %d were missed at first "
+            "and led to a new or strengthened rule (every one is reported now: `tools/seed.py checkall`).\n\n" % (n, n - missed, missed))
+    return head + "\n".join(rows)
 
 
 def coverage():
